@@ -13,7 +13,7 @@ from vpkit import common, zoo
 
 ID = "C13"
 N = {"quick": 160, "thorough": 5000}
-BUDGET = {"quick": 240.0, "thorough": 1500.0}
+BUDGET = {"quick": 240.0, "thorough": 700.0}
 RULE = ("case = (contemporaneous zoo input, mostly multi-tree so nodes have several parent edges, "
         "prior grid, eps incl. large values, probability space); distinct by (topology hash, grid, "
         "eps, space); non-trivial = at least one node with >=2 parent edges was judged")
